@@ -32,21 +32,26 @@ func (c *Ctx) checkTagWrites() {
 	liveTags := c.E().topicField("tags")
 	r.Floor("C19.1-tag-writes-guarded", 3)
 	isNorm := core.IsCallTo(norm)
-	for _, fn := range c.funcsCalling(norm, "server") {
-		r.Func(fk(fn))
-		// sinks: stores of values derived from normalizeTags into tag fields, or "Tags" map keys
-		var sinks []ssa.Instruction
-		core.AllInstrs(fn, func(in ssa.Instruction) {
+	for _, nfn := range c.funcsCalling(norm, "server") {
+		r.Func(fk(nfn))
+		// sinks: stores of values derived from normalizeTags into tag fields, or "Tags" map keys; when the
+		// handler was split into phases they sit in another phase: the handler is the nearest function
+		// up the chain of sole callers whose region has such a sink
+		isSink := func(in ssa.Instruction) bool {
 			switch x := in.(type) {
 			case *ssa.Store:
 				f, _ := core.FieldOfAddr(x.Addr)
-				if (f == userTags || f == topicTags || f == liveTags) && core.Derives(x.Val, isNorm, false) {
-					sinks = append(sinks, in)
-				}
+				return (f == userTags || f == topicTags || f == liveTags) && core.Derives(x.Val, isNorm, false)
 			case *ssa.MapUpdate:
-				if core.IsConstString("Tags")(x.Key) && derivesAny(x.Value, isNorm) {
-					sinks = append(sinks, in)
-				}
+				return core.IsConstString("Tags")(x.Key) && (derivesAny(x.Value, isNorm) || core.Derives(x.Value, isNorm, false))
+			}
+			return false
+		}
+		fn := c.climbUntil(nfn, func(R *ssa.Function) bool { return c.regionHas(R, isSink) })
+		var sinks []ssa.Instruction
+		c.regionInstrs(fn, func(_ *ssa.Function, in ssa.Instruction) {
+			if isSink(in) {
+				sinks = append(sinks, in)
 			}
 		})
 		g := core.BoolGuard("restrictedTagsEqual(.., immutableTagNS)", func(v ssa.Value) bool {
@@ -87,7 +92,7 @@ func (c *Ctx) checkTagWrites() {
 					}
 					any = true
 					pred := phi.Block().Preds[ei]
-					pe, _ := core.PassEdges(fn, g, gEmpty)
+					pe, _ := core.PassEdges(s.Parent(), g, gEmpty)
 					viaPass := false
 					for si, su := range pred.Succs {
 						if su == phi.Block() && pe[core.Edge{From: pred, Idx: si}] {
@@ -97,14 +102,14 @@ func (c *Ctx) checkTagWrites() {
 					if viaPass {
 						continue
 					}
-					if ok, _ := core.GuardedBy(fn, pred.Instrs[len(pred.Instrs)-1], g, gEmpty); !ok {
+					if ok, _ := core.GuardedBy(s.Parent(), pred.Instrs[len(pred.Instrs)-1], g, gEmpty); !ok {
 						okAll = false
 					}
 				}
 				r.Check(okAll && any, "C19.1-tag-writes-guarded", fmt.Sprintf("%s: tag write #%d", fk(fn), i+1), c.pos(s), "behind restrictedTagsEqual(.., globals.immutableTagNS)", "client-supplied tags can be stored without the reserved-namespace comparison: a client can add or remove tags owned by authenticators/validators")
 				continue
 			}
-			ok, cnt := core.GuardedBy(fn, s, g, gEmpty)
+			ok, cnt := core.GuardedBy(s.Parent(), s, g, gEmpty)
 			r.Check(ok && cnt[0] > 0, "C19.1-tag-writes-guarded", fmt.Sprintf("%s: tag write #%d", fk(fn), i+1), c.pos(s), "behind restrictedTagsEqual(.., globals.immutableTagNS)", "client-supplied tags can be stored without the reserved-namespace comparison: a client can add or remove tags owned by authenticators/validators")
 		}
 		r.Check(len(sinks) > 0, "C19.1-tag-writes-guarded", fk(fn)+": normalised tags reach a tag sink", c.P.Pos(fn.Pos()), "", "normalizeTags is called but its result is not what gets stored")
